@@ -217,7 +217,9 @@ def act (fx : Fix) (s : St) : Action → Option St
   | .rhSubFail i =>
     match s.hl, s.hs[i]? with
     | .rh v none, some h =>
-      if h.started = false ∧ h.removed = false then some { s with hl := .free, run := if v then .failed else s.run }
+      if h.started = false ∧ h.removed = false then
+        -- Run's `defer cancel()` fires when Run returns the error: the handlers it had already started lose their context
+        some { s with hl := .free, run := if v then .failed else s.run, runCancel := if v then true else s.runCancel }
       else none
     | _, _ => none
   | .rhStep =>
